@@ -37,6 +37,9 @@ pub fn keygen<S: MlDsa>(seed: u64, nfull: usize, nlite: usize, extra_seeds: &[[u
 }
 
 // ------------------------------------------------------------------------------- C03
+/// length and SHAKE256 digest of a byte string (two strings are compared by the judge without carrying them in the trace)
+fn dig(b: &[u8]) -> String { format!("n{}:{}", b.len(), hexs(&shake256(&[b], 16))) }
+
 pub fn sign<S: MlDsa>(seed: u64, nfull: usize, nfactor: usize, allctx: bool, out: &mut Out) {
     let mut p = Prng::new(seed, 0x0300 + S::SET as u64);
     let xi = p.arr32();
@@ -100,14 +103,19 @@ pub fn sign<S: MlDsa>(seed: u64, nfull: usize, nfactor: usize, allctx: bool, out
         }
     }
     // (i) factoring through the internal interface: grid of (mode, |ctx|, |M|)
-    let mut grid: Vec<(usize, usize)> = vec![]; // (ctx length, message class)
-    if allctx { for c in 0..256 { grid.push((c, c)); } }
-    for i in 0..nfactor { grid.push(([0usize, 1, 2, 127, 128, 254, 255][i % 7], i)); }
-    for (gi, (clen, mclass)) in grid.iter().enumerate() {
+    // (ctx length, message class or -1 = empty / -2 = one byte, restriction to one mode)
+    let mut grid: Vec<(usize, i64, Option<&'static str>)> = vec![];
+    if allctx { for c in 0..256 { grid.push((c, c as i64, None)); } }
+    for i in 0..nfactor { grid.push(([0usize, 1, 2, 127, 128, 254, 255][i % 7], i as i64, if allctx || i < 28 { None } else { Some(MODES[i % 4]) })); }
+    // EVERY context length with an empty and a one-byte message in pure mode, and with a pre-hash mode in rotation: the pieces
+    // (tr, domain byte, length byte, ctx, M or OID, PH(M)) are absorbed one after the other, so a slip at a block boundary of
+    // the sponge or in the handling of an empty piece shows for particular (|ctx|, |M|) only
+    if nfactor > 0 { for c in 0..256usize { grid.push((c, -1, Some("pure"))); grid.push((c, -2, Some("pure"))); grid.push((c, c as i64, Some(MODES[1 + c % 3]))); } }
+    for (clen, mclass, only) in grid.iter() {
         for mode in MODES {
-            if !allctx && gi % 4 != MODES.iter().position(|x| *x == mode).unwrap() % 4 && gi >= 28 { continue; }
+            if let Some(o) = only { if *o != mode { continue; } }
             let ctx = p.bytes(*clen);
-            let m = msg_of(&mut p, *mclass as u64);
+            let m = match *mclass { -1 => vec![], -2 => p.bytes(1), c => msg_of(&mut p, c as u64) };
             let rnd = p.arr32();
             let mut rng = ScriptRng::new(&rnd);
             let r = guarded(|| {
@@ -121,7 +129,7 @@ pub fn sign<S: MlDsa>(seed: u64, nfull: usize, nfactor: usize, allctx: bool, out
             });
             match r {
                 Ok((ext, mp, int, ve, vi)) => out.ev(json!({"ev": "SignFactor", "mode": mode, "ctx": jbytes(&ctx), "m": jbytes(&m), "mp": jbytes(&mp),
-                    "ok": ext.is_ok(), "ext": hexs(&ext.unwrap_or_default()), "int": hexs(&int), "ver_ext": ve, "ver_int": vi, "rnglog": rng.log_json()})),
+                    "ok": ext.is_ok(), "ext": dig(&ext.unwrap_or_default()), "int": dig(&int), "ver_ext": ve, "ver_int": vi, "rnglog": rng.log_json()})),
                 Err((loc, msg)) => out.ev(json!({"ev": "Panic", "call": "sign", "loc": loc, "msg": msg})),
             }
         }
